@@ -8,6 +8,16 @@ import (
 func init() {
 	Props["C04"] = &Prop{Imports: srvImports + "Corr.C04.", Gen: genC04, ShardSize: 20,
 		NonTrivial: func(c *Case) bool { return c.Tags["op:SETATTR"] > 0 && c.Tags["op:READDIRPLUS"] > 0 }}
+	// C04z: the same histories over a backend whose lstat reports size 0 for symbolic links (the convention of memfs);
+	// judged by the oracle alone (what every block says must be what that backend's lstat says)
+	Props["C04z"] = &Prop{Imports: srvImports + "Corr.C04z.", ShardSize: 20,
+		Gen: func(r *Rand, idx int, tier string) Case {
+			LinkSizeZeroNext = true
+			c := genC04(r, idx, tier)
+			c.Kind = "history-linksize0"
+			return c
+		},
+		NonTrivial: func(c *Case) bool { return c.Tags["op:SETATTR"] > 0 && c.Tags["op:READDIRPLUS"] > 0 }}
 	Props["C06"] = &Prop{Imports: srvImports + "Corr.C06.", Gen: genC06, Corpus: corpusC06, ShardSize: 20,
 		NonTrivial: func(c *Case) bool { return c.Tags["handle-reuse"] > 0 }}
 	Props["C05w"] = &Prop{Imports: srvImports + "Corr.C05w.", Gen: genC05w, ShardSize: 20,
